@@ -101,3 +101,31 @@ Proof.
     repeat split; try reflexivity; intros [H|H]; try (apply Hne; congruence); try (apply Hc; exact H); try (apply N; congruence); try (apply Hn; exact H).
 Qed.
 End Collapse.
+
+(* ---------------- 3. the climbing loop of pvRebalance(node, savedNode, fast) ---------------- *)
+(* Gen_TreeFacts.climb_stop is the initialiser of `bool stop` read off the AST.  Evaluated left to right with C++ short-circuit on the
+   hand model's state (root, path of the saved node), where a call pvRebalance(parentNode, index + k, savedNode) is the hand model's
+   try_merge (whose decision is the GENERATED one, C02_rebalance_decision_is_generated), one iteration of the real loop is one step of
+   the hand model's reb_loop: which sibling pair is tried first, that the second merge is not tried after a successful first one, and
+   when `fast` stops the climb. *)
+Section Climb.
+Definition cst := (node * list nat)%type.
+Fixpoint evalb (pp : list nat) (index : nat) (fast : bool) (e : bexp) (s : cst) : bool * cst :=
+  match e with
+  | BReb k => match try_merge (fst s) pp (k + index) (snd s) with Some s' => (true, s') | None => (false, s) end
+  | BFast => (fast, s)
+  | BNot a => let (v, s1) := evalb pp index fast a s in (negb v, s1)
+  | BAnd a b => let (va, s1) := evalb pp index fast a s in if va then evalb pp index fast b s1 else (false, s1)
+  end.
+
+Theorem climb_iteration_is_model index rpp r sp fast :
+  reb_loop (index :: rpp) r sp fast =
+  let '(stop, (r', sp')) := evalb (rev rpp) index fast climb_stop (r, sp) in
+  if stop then (r', sp') else reb_loop rpp r' sp' fast.
+Proof.
+  unfold climb_stop. cbn [reb_loop evalb fst snd Nat.add].
+  destruct (try_merge r (rev rpp) (S index) sp) as [[r1 sp1]|]; cbn [negb fst snd].
+  - reflexivity.
+  - destruct (try_merge r (rev rpp) index sp) as [[r2 sp2]|]; cbn [negb]; [reflexivity|]. destruct fast; reflexivity.
+Qed.
+End Climb.
